@@ -2655,6 +2655,15 @@ static iwrc _jbl_target_apply_patch(struct jbl_node *target, const struct jbl_pa
       if (!ex->from) { // "from" is mandatory for these operations
         return JBL_ERROR_PATCH_INVALID;
       }
+      if ((op == JBP_SWAP) && (ex->from->cnt != path->cnt)) { // a location cannot change places with a part of itself
+        int m = ex->from->cnt < path->cnt ? ex->from->cnt : path->cnt, i = 0;
+        while (i < m && !strcmp(ex->from->n[i], path->n[i])) {
+          ++i;
+        }
+        if (i == m) {
+          return JBL_ERROR_PATCH_INVALID;
+        }
+      }
       if (op == JBP_MOVE) {
         value = _jbl_node_detach(target, ex->from);
       } else {
